@@ -36,20 +36,22 @@
 (***************************************************************************)
 EXTENDS Naturals, Sequences, FiniteSets, TLC, Json
 
-CONSTANTS MaxEv, MaxDepth, MaxRel, MaxCte, TblNames, CteNames, Schemas, Kinds, Known, Emit, Clauses
+CONSTANTS MaxEv, MaxDepth, MaxRel, MaxCte, TblNames, CteNames, Schemas, Kinds, Known, Emit, Clauses, DefSchemas
 
 None == "none"
 Ev(e, a, b, c) == [e |-> e, a |-> a, b |-> b, c |-> c]
-Tbl(s, n) == IF s = None THEN "<default>." \o n ELSE s \o "." \o n
 Moves(k) == k \in {"insert", "ctas", "view", "update", "merge", "query", "select_into"}
 HasTarget(k) == k \in {"insert", "ctas", "view", "update", "merge", "select_into"}
 
-VARIABLES prog,    \* the events so far (the input)
+VARIABLES ds,      \* the configured default schema ("none": not set) - C14
+          prog,    \* the events so far (the input)
           stack,   \* open SELECT frames
           ctes,    \* names of the CTEs defined so far (visible to later queries)
           phase,   \* start | with | body | done
           out, outDev, fired
-vars == <<prog, stack, ctes, phase, out, outDev, fired>>
+vars == <<ds, prog, stack, ctes, phase, out, outDev, fired>>
+\* the schema fallback chain: explicit qualifier, configured default, placeholder
+Tbl(s, n) == (IF s # None THEN s ELSE IF ds # None THEN ds ELSE "<default>") \o "." \o n
 
 \* a frame = one query scope.  groups: the comma-separated from_expressions, each a sequence of relation
 \* contributions <<intended set of tables, deviant set>>; extra: tables found through WHERE / select-list / HAVING subqueries
@@ -77,18 +79,18 @@ CloseBranch(f) == [f EXCEPT !.acc = @ \cup Contribution(f) \cup f.extra, !.accDe
 \* which cte body are we in (outermost frame's role when it is a cte)
 InCteBody == IF stack # <<>> /\ stack[1].role \notin {"top"} THEN stack[1].role ELSE None
 
-Init == prog = <<>> /\ stack = <<>> /\ ctes = {} /\ phase = "start" /\ out = {} /\ outDev = {} /\ fired = {}
+Init == ds \in DefSchemas /\ prog = <<>> /\ stack = <<>> /\ ctes = {} /\ phase = "start" /\ out = {} /\ outDev = {} /\ fired = {}
 
 Start == /\ phase = "start" /\ \E k \in Kinds : prog' = <<Ev("stmt", k, None, None)>>
-         /\ phase' = "with" /\ UNCHANGED <<stack, ctes, out, outDev, fired>>
+         /\ phase' = "with" /\ UNCHANGED <<ds, stack, ctes, out, outDev, fired>>
 StmtKind == prog[1].a
 \* WITH is rendered only for kinds whose grammar takes it in front of the query
 CteOpen == /\ phase = "with" /\ Room /\ Cardinality(ctes) < MaxCte /\ StmtKind \in {"insert", "ctas", "view", "query", "select_into"}
            /\ \E n \in CteNames \ ctes :
                 prog' = Append(prog, Ev("cte", n, None, None)) /\ stack' = <<[Frame("cte") EXCEPT !.role = n]>>
-           /\ phase' = "body" /\ UNCHANGED <<ctes, out, outDev, fired>>
+           /\ phase' = "body" /\ UNCHANGED <<ds, ctes, out, outDev, fired>>
 Main == /\ phase = "with" /\ Room /\ prog' = Append(prog, Ev("main", None, None, None)) /\ stack' = <<Frame("top")>>
-        /\ phase' = "body" /\ UNCHANGED <<ctes, out, outDev, fired>>
+        /\ phase' = "body" /\ UNCHANGED <<ds, ctes, out, outDev, fired>>
 \* a FROM name.  What it means: an undotted name equal to a CTE defined EARLIER is that CTE; anything else is a table.
 \* What the machine does: looks the undotted name up among the registered CTEs - under D_CTE_VISIBLE_IN_OWN_BODY that
 \* includes the CTE whose body is being read.
@@ -101,9 +103,9 @@ FromName == /\ phase = "body" /\ Room /\ NRel(Top) < MaxRel
                  /\ prog' = Append(prog, Ev(IF meantCte THEN "cteref" ELSE "tbl", j, s, n))
                  /\ stack' = SetTop(AddRel(Top, j, c, cd))
                  /\ fired' = IF c # cd THEN fired \cup {"D_CTE_VISIBLE_IN_OWN_BODY"} ELSE fired
-            /\ UNCHANGED <<ctes, phase, out, outDev>>
+            /\ UNCHANGED <<ds, ctes, phase, out, outDev>>
 Push(ev, role, f) == /\ phase = "body" /\ Room /\ Len(stack) <= MaxDepth /\ prog' = Append(prog, ev)
-                     /\ stack' = Append(SetTop(f), Frame(role)) /\ UNCHANGED <<ctes, phase, out, outDev, fired>>
+                     /\ stack' = Append(SetTop(f), Frame(role)) /\ UNCHANGED <<ds, ctes, phase, out, outDev, fired>>
 FromSub == /\ phase = "body" /\ NRel(Top) < MaxRel /\ \E j \in Joins : Push(Ev("sub", j, None, None), "derived:" \o j, Top)
 WhereSub == /\ phase = "body" /\ NRel(Top) >= 1 /\ ~Top.wh /\ ~Top.hv /\ "where" \in Clauses
             /\ Push(Ev("where", None, None, None), "where", [Top EXCEPT !.wh = TRUE])
@@ -118,8 +120,8 @@ Union == /\ phase = "body" /\ Room /\ NRel(Top) >= 1 /\ Top.br < 2 /\ "union" \i
          /\ prog' = Append(prog, Ev("union", None, None, None))
          /\ stack' = SetTop([CloseBranch(Top) EXCEPT !.br = @ + 1])
          /\ fired' = IF Mixed(Top) /\ Contribution(Top) # ContributionDev(Top) THEN fired \cup {"D_COMMA_JOIN_DROPS_JOINED"} ELSE fired
-         /\ UNCHANGED <<ctes, phase, out, outDev>>
-End == /\ phase = "body" /\ NRel(Top) >= 1 /\ prog' = Append(prog, Ev("end", None, None, None))
+         /\ UNCHANGED <<ds, ctes, phase, out, outDev>>
+End == /\ phase = "body" /\ NRel(Top) >= 1 /\ prog' = Append(prog, Ev("end", None, None, None)) /\ UNCHANGED ds
        /\ LET f == CloseBranch(Top)
               mixed == Mixed(Top) /\ Contribution(Top) # ContributionDev(Top) IN
           IF Len(stack) = 1
@@ -143,7 +145,7 @@ Spec == Init /\ [][Next]_vars
 
 \* ---------------------------------------------------------------- the property, read off the program alone
 BaseTables(p) == IF Moves(p[1].a) THEN {Tbl(p[i].b, p[i].c) : i \in {j \in DOMAIN p : p[j].e = "tbl"}} ELSE {}
-Target(p) == IF HasTarget(p[1].a) THEN {"<default>.tgt"} ELSE {}
+Target(p) == IF HasTarget(p[1].a) THEN {Tbl(None, "tgt")} ELSE {}
 LocalNames(p) == {p[i].a : i \in {j \in DOMAIN p : p[j].e = "cte"}}
 Result == IF Moves(StmtKind) THEN out ELSE {}
 ResultDev == IF Moves(StmtKind) THEN outDev ELSE {}
@@ -151,6 +153,10 @@ MachineTablesExact == phase = "done" => Result = BaseTables(prog)
 LocalsNeverReported == phase = "done" =>
    \A n \in LocalNames(prog) : Tbl(None, n) \in Result => \E i \in DOMAIN prog : prog[i].e = "tbl" /\ prog[i].b = None /\ prog[i].c = n
 NoopReportsNothing == (phase = "done" /\ ~Moves(StmtKind)) => Result = {}
+\* C14: a default schema means exactly "every unqualified name written as S.name": the report under default S of the
+\* program equals the report of the textually qualified program without default (both are BaseTables over Tbl)
+Qualified(p) == [i \in DOMAIN p |-> IF p[i].e = "tbl" /\ p[i].b = None /\ ds # None THEN [p[i] EXCEPT !.b = ds] ELSE p[i]]
+DefaultEqualsQualified == phase = "done" => BaseTables(prog) = BaseTables(Qualified(prog))
 DeviantTablesExact == phase = "done" => ResultDev = BaseTables(prog)      \* expected to FAIL when Known # {}: yields the witness
 DeviationsAccountedFor == phase = "done" => (ResultDev # Result => fired # {})
 
